@@ -239,6 +239,8 @@ type opRec struct {
 	ParkRun bool   `json:"parked_while_running,omitempty"` // kind "gated": the call is held in a method body (not in its lookup)
 	Args  []string `json:"args,omitempty"`             // classes of the call arguments
 	Var   []bool   `json:"variant,omitempty"`          // which object of each class
+	Bare  []bool   `json:"bare_parameter,omitempty"`   // kind "def": the parameter is written `a`, not `(a t)` (only where the specializer is t)
+	Spelled bool   `json:"-"`                          // Bare was chosen by the generator of the history (otherwise defLisp draws it)
 	Lisp  string   `json:"lisp"`
 	Par   []opRec  `json:"concurrent_defs,omitempty"` // kind "par": defmethods issued while another routine keeps calling; kind "gated": the one operation of the other routine
 	GateAt  int    `json:"gate_at,omitempty"`      // kind "gated": the call is parked at this Hierarchy() call of its last argument
@@ -489,12 +491,30 @@ func Run(ctx *common.Ctx) {
 			// every method has parameter names of its own: nothing may depend on the names
 			pn := make([]string, n)
 			var ll []string
+			// a parameter specialized on t is written `a` or `(a t)`: the same method
+			if !r.Spelled {
+				r.Bare = make([]bool, n)
+				for j, c := range r.Key {
+					r.Bare[j] = c == "t" && ctx.Rng.Chance(50)
+				}
+			}
+			var gps []string
 			for j, c := range r.Key {
 				pn[j] = fmt.Sprintf("%s%d", params[j], r.ID)
-				ll = append(ll, fmt.Sprintf("(%s %s)", pn[j], c))
+				if r.Bare[j] && c == "t" {
+					ll = append(ll, pn[j])
+					gps = append(gps, "None")
+					ctx.Hist("parameter:bare")
+				} else {
+					ll = append(ll, fmt.Sprintf("(%s %s)", pn[j], c))
+					gps = append(gps, "Some "+common.GStr(c))
+					if c == "t" {
+						ctx.Hist("parameter:(a t)")
+					}
+				}
 			}
 			r.Lisp = fmt.Sprintf("(defmethod %s %s (%s) %s)", g, r.Qual, strings.Join(ll, " "), bodyLisp(r, pn))
-			gops = append(gops, fmt.Sprintf("OpDef %s %s %s", gq[r.Qual], common.GStrs(r.Key), bodyGallina(r)))
+			gops = append(gops, fmt.Sprintf("SDef %s %s %s", gq[r.Qual], common.GList(gps), bodyGallina(r)))
 			gobs = append(gobs, "None")
 		}
 		for i := range recs {
@@ -554,7 +574,7 @@ func Run(ctx *common.Ctx) {
 					}
 					b.Lisp = fmt.Sprintf("(let ((m (find-method '%s %s '(%s)))) (if m (remove-method '%s m) nil))", g, ql,
 						strings.Join(b.Key, " "), g)
-					gops = append(gops, fmt.Sprintf("OpRemove %s %s", gq[b.Qual], common.GStrs(b.Key)))
+					gops = append(gops, fmt.Sprintf("SRemove %s %s", gq[b.Qual], common.GStrs(b.Key)))
 					gobs = append(gobs, "None")
 				}
 				var exprs, vs []string
@@ -630,7 +650,7 @@ func Run(ctx *common.Ctx) {
 				r.Trace = append([]tev{}, k.tr...)
 				res, shown := resultOf(out)
 				r.Res = shown
-				gops = append(gops, "OpCall "+common.GStrs(r.Args)+" "+common.GList(vs))
+				gops = append(gops, "SCall "+common.GStrs(r.Args)+" "+common.GList(vs))
 				gobs = append(gobs, fmt.Sprintf("(Some (%s, %s))", common.GList(gallinaTrace(r.Trace)), res))
 				if r.ParkRun || !r.BFirst {
 					gops[idx], gops[idx+1] = gops[idx+1], gops[idx]
@@ -658,7 +678,7 @@ func Run(ctx *common.Ctx) {
 				}
 				r.Lisp = fmt.Sprintf("(let ((m (find-method '%s %s '(%s)))) (if m (remove-method '%s m) nil))", g, ql,
 					strings.Join(r.Key, " "), g)
-				gops = append(gops, fmt.Sprintf("OpRemove %s %s", gq[r.Qual], common.GStrs(r.Key)))
+				gops = append(gops, fmt.Sprintf("SRemove %s %s", gq[r.Qual], common.GStrs(r.Key)))
 				gobs = append(gobs, "None")
 			case "call":
 				var exprs, vs []string
@@ -676,7 +696,7 @@ func Run(ctx *common.Ctx) {
 					vs = append(vs, common.GBool(j < len(r.Var) && r.Var[j]))
 				}
 				r.Lisp = fmt.Sprintf("(%s %s)", g, strings.Join(exprs, " "))
-				gops = append(gops, "OpCall "+common.GStrs(r.Args)+" "+common.GList(vs))
+				gops = append(gops, "SCall "+common.GStrs(r.Args)+" "+common.GList(vs))
 			}
 			trace = trace[:0]
 			var out common.Outcome
@@ -969,6 +989,60 @@ func Run(ctx *common.Ctx) {
 			}
 		}
 	}
+	// ---- systematic block 3: the spelling of a parameter specialized on t. `a` and `(a t)` denote
+	// the same method: for every specializer tuple with a t (1 and 2 arguments), every way to write
+	// it, every qualifier, and a redefinition in every other spelling (or none): define, call,
+	// remove (through find-method with the specializers), call - the method must be gone -, define
+	// again in the second spelling, call, remove, call.
+	for _, key := range [][]string{{"t"}, {"t", "t"}, {"t", "fixnum"}, {"fixnum", "t"}} {
+		n := len(key)
+		var spellings [][]bool
+		for m := 0; m < 1<<n; m++ {
+			sp := make([]bool, n)
+			ok := true
+			for j := range sp {
+				sp[j] = m>>j&1 == 1
+				ok = ok && (!sp[j] || key[j] == "t")
+			}
+			if ok {
+				spellings = append(spellings, sp)
+			}
+		}
+		base := []string{"integer", "integer"}[:n]
+		fix, str := []string{"fixnum", "fixnum"}[:n], []string{"string", "fixnum"}[:n]
+		vr := make([]bool, n)
+		for _, s1 := range spellings {
+			for si := -1; si < len(spellings); si++ {
+				for _, q := range quals {
+					s2 := s1
+					if si >= 0 {
+						s2 = spellings[si]
+					}
+					mk := func(id int, sp []bool) opRec {
+						r := opRec{Kind: "def", Qual: q, Key: key, ID: id, Bare: sp, Spelled: true}
+						if q == ":around" {
+							r.Calls, r.NoArg, r.Caught = [][]bool{make([]bool, n)}, []bool{id%2 == 0}, []bool{false}
+						}
+						return r
+					}
+					calls := []opRec{{Kind: "call", Args: fix, Var: vr}, {Kind: "call", Args: str, Var: vr}}
+					rm := opRec{Kind: "remove", Qual: q, Key: key}
+					recs := []opRec{{Kind: "def", Qual: "", Key: base, ID: 1}, mk(2, s1)}
+					if si >= 0 {
+						recs = append(recs, mk(3, s2))
+					}
+					recs = append(recs, calls...)
+					recs = append(recs, rm)
+					recs = append(recs, calls...)
+					recs = append(recs, mk(4, s2))
+					recs = append(recs, calls[0], rm)
+					recs = append(recs, calls...)
+					ctx.Hist("history:parameter-spelling")
+					runAndStore(n, recs)
+				}
+			}
+		}
+	}
 	// histories with a forced schedule: a call parked in the middle of its method lookup while
 	// another routine defines or removes a method the lookup has already passed. The calls that
 	// follow must see the change (a method list computed before it must not be in the cache).
@@ -1064,12 +1138,14 @@ func Run(ctx *common.Ctx) {
 	ctx.Meta.DistinctNontrivial = len(distinct)
 	ctx.Meta.Rule = "random histories (3..14 ops) of defmethod (4 qualifiers x specializer tuples over 16 classes; primary and :around bodies " +
 		"with optional next-method-p and 0..2 call-next-method forms: arguments as received, none written, or exchanged for the second " +
-		"object of the class; every method has parameter names of its own)/remove-method/call on fresh 1- and 2-argument generic functions " +
+		"object of the class; every method has parameter names of its own; a parameter specialized on t is written bare or as (a t), each with probability 1/2)/remove-method through find-method/call on fresh 1- and 2-argument generic functions " +
 		"with arguments from 9 classes x 2 objects (numeric tower, string, two CLOS chain instances, nil, a slow-hierarchy object); " +
+		"plus enumerated blocks: class pairs against the cache key, retry after an error, every spelling of every t-containing specializer tuple x qualifier x redefinition with define/call/remove/call, forced schedules; " +
 		"a case is distinct by its op list + observed outputs and non-trivial when it contains at least one call"
-	header := "From C10 Require Import Model Spec Proofs Corr.\nOpen Scope N_scope.\nDefinition ct : ctable := " + ct + ".\n"
+	header := "From C10 Require Import Model Spec Proofs ModelDoc Corr.\nOpen Scope N_scope.\nDefinition ct : ctable := " + ct + ".\n"
 	footer := "Definition res := Eval vm_compute in check_all cases.\nPrint res.\n" +
-		"Definition gcount := Eval vm_compute in guard_count cases.\nPrint gcount.\n"
+		"Definition gcount := Eval vm_compute in guard_count cases.\nPrint gcount.\n" +
+		"Definition bare_method_definitions := Eval vm_compute in bare_defs cases.\nPrint bare_method_definitions.\n"
 	ctx.WriteShards("cases", header, "case", footer, terms, descs, 16)
 	runConcurrent(ctx)
 	ctx.ReplayKnownLisp()
